@@ -85,7 +85,7 @@ def obligations(tier):
     CN = ('unc', 'snappy', 'lz4')
     # (spec, rows, row groups, rows per page, flavour, batch size, projection)
     TWO = [('is', 8, 2, 2, 0, 3, 0), ('Sb', 9, 1, 3, 1, 4, 0), ('xD', 10, 2, 2, 0, 5, 2), ('fl', 7, 1, 2, 1, 2, 1)]
-    THREE = [('ilS', 6, 1, 2, 0, 4, 0), ('BsD', 8, 2, 2, 0, 3, 0), ('sIx', 6, 2, 3, 1, 6, 0), ('IlsB', 8, 2, 2, 0, 3, 1)]
+    THREE = [('ilS', 6, 1, 2, 0, 4, 0), ('BsD', 8, 2, 2, 0, 4, 0), ('sIx', 6, 2, 3, 1, 6, 0), ('IlsB', 9, 1, 2, 0, 3, 1)]      # 3 projected columns: 36 orders per call -> at most 3 calls with a batch
     for om in (0, 1, 2):
         for ci, cn in enumerate(CN):
             for si, (spec, rows, nrg, page, fl, bs, pj) in enumerate(TWO):
